@@ -116,7 +116,21 @@ OutlineFrom(cs, k, skippedCount) ==
             o == OuterFromInner(s)
         IN IF HasFailed(o) THEN o
            ELSE OutlineFrom(cs, k + 1, IF s = "skipped" THEN skippedCount + 1 ELSE skippedCount)
-OutlineFromRows(cs) == OutlineFrom(cs, 1, 0)
+\* the same with the untested case of the drafted repair of DESIGN 8 #1 (design/candidate_repairs.diff): an
+\* untested row makes the outline untested, or failed if a row before it was neither skipped nor untested
+RECURSIVE OutlineFromU(_,_,_,_)
+OutlineFromU(cs, k, skippedCount, passedCount) ==
+   IF k > Len(cs) THEN (IF skippedCount > 0 /\ skippedCount = Len(cs) THEN "skipped" ELSE "passed")
+   ELSE LET s == cs[k]
+            o == OuterFromInner(s)
+        IN IF HasFailed(o) THEN o
+           ELSE IF IsUntested(o) THEN (IF passedCount > 0 THEN "failed" ELSE "untested")
+           ELSE IF s = "skipped" THEN OutlineFromU(cs, k + 1, skippedCount + 1, passedCount)
+           ELSE OutlineFromU(cs, k + 1, skippedCount, passedCount + 1)
+\* The specification follows the code: FALSE = ScenarioOutline.compute_status as it is in the unrepaired tree,
+\* TRUE = with the untested case.  (Rows are never empty here: an outline without rows is out of scope.)
+OutlineHasUntestedCase == TRUE
+OutlineFromRows(cs) == IF OutlineHasUntestedCase THEN OutlineFromU(cs, 1, 0, 0) ELSE OutlineFrom(cs, 1, 0)
 
 Code(kind, cs, hf) ==
    CASE kind = "scenario" -> IF hf THEN "hook_error" ELSE ScenarioFromSteps(cs)
